@@ -512,7 +512,11 @@ def _unknown_traits(ctx):
 
 
 def check(ctx):
-    nz, server, _put = _admission(ctx)
+    nz, server, put = _admission(ctx)
+    # shared with C01.6: the lease that the lifetime test reads is only
+    # neutralised for the duration of a verbatim restore
+    from . import c01
+    c01._restore(ctx, server, put, rule='C03.2')
     _bypass(ctx, nz, server)
     loop = _not_up(ctx, nz)
     _revalidation(ctx, nz)
